@@ -65,7 +65,7 @@ struct Session {
     // classification
     bool skip_container = false, leave_unread = false, leave_pending = false, next_after_inner_leave = false;
     bool just_left_inner = false;
-    unsigned hits = 0, misses = 0, miss_then_hit = 0, lookup_over_pending = 0, special_names = 0;
+    unsigned hits = 0, misses = 0, miss_then_hit = 0, lookup_over_pending = 0, special_names = 0, aliased = 0;
     bool last_lookup_missed = false;
     unsigned raws = 0, raw_deep = 0, raw_after_history = 0;
     bool history = false;  // a leave/raw/lookup happened before
@@ -331,9 +331,16 @@ struct Session {
             Block nb(name.size() + (cform ? 1 : 0));
             if (!name.empty()) memcpy(nb.p, name.data(), name.size());
             if (cform) nb.p[name.size()] = 0;
+            const char *np = (const char *)nb.p;
+            if (!cform && !literal && (sel & 0x20)) {
+                // in-place lookup: the name pointer aliases a field name inside the document (as an application does that got it
+                // from get_name and looks up a prefix of it, or the name itself) - same bytes, so the same answer is due
+                for (auto &f : in->c)
+                    if (f.name.size() >= name.size() && !name.empty() && memcmp(f.name.data(), name.data(), name.size()) == 0) { np = (const char *)pb.input.p + f.npb; aliased++; break; }
+            }
             bool r;
-            if (!ens) r = cform ? binson_parser_field(p, (const char *)nb.p) : binson_parser_field_with_length(p, (const char *)nb.p, name.size());
-            else r = cform ? binson_parser_field_ensure(p, (const char *)nb.p, want) : binson_parser_field_ensure_with_length(p, (const char *)nb.p, name.size(), want);
+            if (!ens) r = cform ? binson_parser_field(p, np) : binson_parser_field_with_length(p, np, name.size());
+            else r = cform ? binson_parser_field_ensure(p, np, want) : binson_parser_field_ensure_with_length(p, np, name.size(), want);
             cur.field(name);
             history = true;
             just_left_inner = false;
@@ -499,6 +506,7 @@ static void run_case(Src &s) {
     if (ss.miss_then_hit) st.label("lookup-miss-then-hit");
     if (ss.lookup_over_pending) st.label("lookup-over-pending-container");
     if (ss.special_names) st.label("lookup-name-with-0x00-or-0x80+");
+    if (ss.aliased) st.label("lookup-name-aliasing-the-document");
     if (ss.raws) st.label("raw-extraction");
     if (ss.raw_deep) st.label("raw-nested>=2");
     if (ss.raw_after_history) st.label("raw-after-leave/raw/lookup");
@@ -679,13 +687,20 @@ static int enumerate(int shard, int nshards, const char *tier) {
     uint64_t states = 0, transitions = 0;
     // second pass with the prefix-chain naming scheme over the trees that contain an object with >= 2 fields
     const size_t nsh = shapes.size();
-    for (size_t ti2 = 0; ti2 < 2 * nsh; ti2++) {
+    // third pass: every integer holds the byte offset of the token that follows it ("values that equal positions")
+    for (size_t ti2 = 0; ti2 < 3 * nsh; ti2++) {
         size_t ti = ti2 % nsh;
-        int scheme = ti2 >= nsh ? 1 : 0;
+        int scheme = (int)(ti2 / nsh);
         if ((int)(ti2 % (size_t)nshards) != shard) continue;
         if (scheme == 1 && shapes[ti].find('{') == std::string::npos) continue;
+        if (scheme == 2 && shapes[ti].find('i') == std::string::npos) continue;
         Value tree;
-        parse_shape(shapes[ti], 0, tree, scheme);
+        parse_shape(shapes[ti], 0, tree, scheme == 2 ? 0 : scheme);
+        if (scheme == 2) {
+            ref::encode(tree);  // fills the spans; all integers are 1-byte, so the offsets do not move when the values change
+            struct R { static void go(Value &v) { if (v.k == ref::K_INT) v.i = (int64_t)(v.te <= 127 ? v.te : 5); for (auto &c : v.c) go(c); } };
+            R::go(tree);
+        }
         Bytes doc = ref::encode(tree);
         bool arr = tree.k == K_ARR;
         unsigned depth = need_depth(tree, arr);
